@@ -70,6 +70,32 @@ func listDir(dir string) []any {
 	return out
 }
 
+// pathForm spells the path p (absolute) the way the case asks for: the outcome of a tsh run may not depend on it.
+func pathForm(c N, dir string, p string, isOut bool) string {
+	pf, _ := c["pathForm"].(string)
+	rel, _ := filepath.Rel(dir, p)
+	switch pf {
+	case "rel":
+		return rel
+	case "dot":
+		if isOut {
+			return "./" + rel + "/"
+		}
+		return "./" + rel
+	case "trail":
+		if isOut {
+			return p + "/"
+		}
+	case "up":
+		return filepath.Dir(p) + "/../" + filepath.Base(filepath.Dir(p)) + "/" + filepath.Base(p)
+	case "cwdin":
+		in := filepath.Join(dir, "in", c["input"].(string))
+		r, _ := filepath.Rel(filepath.Dir(in), p)
+		return r
+	}
+	return p
+}
+
 func cmdCli(args []string) {
 	cases := readCases(args[0])
 	scratch, tsh := args[2], args[3]
@@ -84,7 +110,11 @@ func cmdCli(args []string) {
 			c := cases[i]
 			dir := filepath.Join(scratch, fmt.Sprintf("cli%05d", i))
 			in := filepath.Join(dir, "in", c["input"].(string))
-			out := filepath.Join(dir, "out")
+			outName := "out"
+			if on, ok := c["outName"].(string); ok && on != "" {
+				outName = on
+			}
+			out := filepath.Join(dir, outName)
 			os.MkdirAll(filepath.Dir(in), 0o755)
 			os.MkdirAll(out, 0o755)
 			os.MkdirAll(filepath.Join(dir, "in", "adir.tsh"), 0o755)
@@ -122,9 +152,9 @@ func cmdCli(args []string) {
 				s := a.(string)
 				switch s {
 				case "$IN":
-					s = in
+					s = pathForm(c, dir, in, false)
 				case "$OUT":
-					s = out
+					s = pathForm(c, dir, out, true)
 				case "$MISSING":
 					s = filepath.Join(dir, "in", "missing.tsh")
 				case "$INDIR":
@@ -138,6 +168,9 @@ func cmdCli(args []string) {
 			}
 			cmd := exec.Command(tsh, argv...)
 			cmd.Dir = dir
+			if c["pathForm"] == "cwdin" {
+				cmd.Dir = filepath.Dir(in)
+			}
 			done := make(chan error, 1)
 			cmd.Start()
 			go func() { done <- cmd.Wait() }()
